@@ -1,4 +1,5 @@
-(* c04 driver: model observation + oracle verdict for "enc" and "dec" records of harness/cmd/c04.
+(* c04 driver: model observation + oracle verdict for "enc" and "dec" records of harness/cmd/c04, and for
+   the "j" records of harness/cmd/c10 (C10's dag-json tie: accept/reject class and nesting depth).
    The Section variables of the model are instantiated per record:
      fmt_float   finite table from the record (text emitFloat produced for that float alone)
      parse_float OCaml's float_of_string (correctly rounded strtod), overflow = error as in Go
@@ -190,4 +191,31 @@ let () =
       let model_obs = if !tablemiss then model_obs ^ "!tablemiss" else model_obs in
       print_string id; print_char '\t'; print_string model_obs; print_char '\t';
       print_endline (if !tablemiss then "fail:table_miss" else "ok")
+    | id :: "j" :: codec :: opts :: inhex :: ptab_s :: obs :: _ ->
+      (* C10: id, "j", dagjson|json, l<0|1>y<0|1>e<0|1>d<maxdepth>, input, ptab, obs = ok|d<depth> / err:depth / err:other / panic:<site> *)
+      let ptab = parse_tab ptab_s in
+      let cid_parse s =
+        match Hashtbl.find_opt ptab (hex_of_bytes s) with
+        | Some "!" -> None
+        | Some t -> Some (bytes_of_hex t)
+        | None -> tablemiss := true; None in
+      let bit i = codec <> "json" && String.length opts > i && opts.[i] = '1' in
+      let beyond = String.length opts > 5 && opts.[5] = '1' in
+      let depth = if String.length opts > 7 then int_of_string (String.sub opts 7 (String.length opts - 7)) else 0 in
+      let dop = { jd_links = bit 1; jd_bytes = bit 3; jd_dont_parse_beyond = beyond; jd_max_depth = z_of_int depth } in
+      let model_obs =
+        match jdecode parse_float_ocaml cid_parse dop (bytes_of_hex inhex) with
+        | Ok (d, _) -> Printf.sprintf "ok|d%d" (int_of_nat (dm_depth d))
+        | Err JDDepth -> "err:depth"
+        | Err (JDOther | JDTrailing) -> "err:other"
+        | Err JDFuel -> "err:fuel"
+        | Err JDStale -> "err:stale" in
+      let maxd = if depth > 0 then depth else 1024 in
+      let verdict =
+        if !tablemiss then "fail:table_miss"
+        else if String.length obs >= 5 && String.sub obs 0 5 = "panic" then "fail:json_decode_panic"
+        else if (try Scanf.sscanf obs "ok|d%d" (fun d -> d > maxd) with _ -> false) then "fail:json_depth_exceeded"
+        else if obs <> model_obs then "fail:json_model_mismatch"
+        else "ok" in
+      print_string id; print_char '\t'; print_string model_obs; print_char '\t'; print_endline verdict
     | _ -> ())
